@@ -27,17 +27,21 @@ RULE = (
   "gravcomp incl. actuator gravcomp, fixed tendon, 1-4 actuators motor/position/velocity/intvelocity/general with ctrlrange and ctrl outside it, activations outside actrange, solref "
   "time constants below 2*timestep, 4-12 sensors of every stage incl. e_potential/e_kinetic, Euler/implicitfast/implicit, Newton/CG, both cones, dense/sparse) x a subset S of the 19 supported flags "
   "(17 disable + energy, invdiscrete) set in the MJCF before put_model x one toggled flag F x a float32 state (settled 0/5/30 steps with MuJoCo).  Enumerated pre-pass: every singleton and "
-  "every pair of flags on 3 (quick) / 5 (thorough) base models chosen so that every flag changes MuJoCo's own output and (except ISLAND) MJWarp's; Hypothesis phase: random subsets of every density on random models.  "
+  "every pair of flags on 3 (quick) / 5 (thorough) base models chosen (from the reference alone) so that every flag changes MuJoCo's own output and the default-flags contact lists of the two engines agree; Hypothesis phase: random subsets of every density on random models.  "
   "Oracle 1 (differential, MuJoCo C 3.13 with the same flags on the same state): after forward(): qfrc_bias/spring/damper/gravcomp/passive/smooth, qacc_smooth, actuator_force, act_dot, "
   "qfrc_actuator, ne/nf/nl (always), nefc + constraint rows as a keyed multiset (J, pos-margin, vel, frictionloss, D, aref) when both engines report the same contacts, qacc/qfrc_constraint "
   "when additionally both solvers converged, sensordata (left untouched when SENSOR is disabled, acceleration-stage sensors only when qacc agrees), energy when ENERGY is enabled, "
-  "qfrc_inverse of inverse() on MJWarp's own qacc (INVDISCRETE on/off), and after step(): time, act, qvel, qpos.  Oracle 2 (locality, MJWarp only, bitwise): the run with S and the run with "
+  "qfrc_inverse of inverse() on MJWarp's own qacc (INVDISCRETE on/off), after step(): time, act, qvel, qpos; plus, for flag sets containing CONSTRAINT/CONTACT/FILTERPARENT/MULTICCD, the "
+  "flag's effect on the contact list where the default-flags lists of the two engines agree (presence of >2 mm penetrating plane/sphere/capsule pairs; number of contacts of a flat "
+  "mesh-on-box pair: 4 with MULTICCD, 1 without).  Oracle 2 (locality, MJWarp only, bitwise): the run with S and the run with "
   "S xor {F} agree bit for bit on every observed field group that is not downstream of F according to a hand-written dependency map (see _MAY_CHANGE).  evaluation = one differential stage "
   "comparison or one locality field-group comparison; non-trivial = the flag set S changes >=1 observed field of MJWarp or of MuJoCo versus the default-flags run on the same model and state (measured)"
 )
 ASSUMPTIONS = [
   "MuJoCo C 3.13 is the reference; solver tolerance 1e-8 / 100 iterations on both sides; nworld=1 (flags are global options)",
-  "stage tolerances as in C02/C03/C05/C08: forces 5e-4*scale, qacc_smooth scaled by cond(M) (skipped if >1e6), rows J 5e-4 / D, aref 2e-3 relative, qacc 2e-2*accscale with active rows, "
+  "stage tolerances as in C02/C03/C05/C08: forces 5e-4*scale, qacc_smooth scaled by cond(M) (skipped if >1e6), rows J and vel 1.5e-3 (contacts matched within 3e-4 in position/frame), D 2e-3 relative, "
+  "aref within 8e-3 of the size of its terms B*|vel| + K*I*|pos| plus the effect of the row's own vel/pos difference, qacc 2e-2*accscale with active rows, qfrc_inverse 5e-4 without rows / 2e-3 of "
+  "max(force scale, max D*(|J.qacc| + B|vel| + K*I|pos|)) with rows, "
   "next qvel/qpos = acceleration tolerance x dt (x dt^2) + float32 representation terms, sensors 1e-4 (pos/vel) / 2e-3 (acc stage) relative to the stage scale, energy 1e-4",
   "constraint rows, solver outputs, acceleration-stage sensors, qfrc_inverse and the next state are judged only when both engines report the same contacts (C04's business otherwise), "
   "the same row keys, no row with efc_D > 1e10, and (solver outputs) both solvers converged; otherwise counted in boundary_skipped",
@@ -47,11 +51,13 @@ ASSUMPTIONS = [
   "contacts whose tangent frame differs (C05 frame:tangent) make the world 'not comparable'",
   "the next state (and the INVDISCRETE inverse) of implicit/implicitfast steps is judged on models with hinge/slide joints only: with free or ball joints MuJoCo 3.13 folds the gyroscopic "
   "velocity derivative of free bodies into implicitfast too and MJWarp does not, whatever the flags (C08's business; excluded by class, counted); forward() fields are judged for all",
+  "INVDISCRETE + DAMPER disabled + Euler with non-zero dof damping is not judged for qfrc_inverse: MuJoCo's mj_discreteAcc ignores the damper flag that its own Euler step honours "
+  "(the reference is not the inverse of its own step there; MJWarp follows the step, commit 17399c5)",
   "RK4 is excluded (sub-stage fields are C08's business); inverse() with INVDISCRETE and the implicit integrator raises NotImplementedError in MJWarp (clean rejection of that evaluation)",
   "locality is asserted bitwise because both runs execute the same kernels on the CPU device in the same task order on identical inputs; island toggles leave the pre-solver fields bit-identical "
   "and are allowed to change solver outputs",
 ]
-BUDGET = {"quick": dict(examples=480, seconds=150, workers=16), "thorough": dict(examples=8000, seconds=1500, workers=16)}
+BUDGET = {"quick": dict(examples=480, seconds=150, workers=16), "thorough": dict(examples=16000, seconds=1500, workers=16)}
 
 _CAP = int(OT.NEFC | OT.NJMAX_NNZ | OT.BROADPHASE | OT.NARROWPHASE | OT.CCD | OT.NVMAX | OT.HFIELD | OT.EPA_HORIZON | OT.CONTACT_MATCH)
 _ITER = 100
@@ -114,9 +120,15 @@ def _base_cfg(seed):
   )
 
 
-def _base_case(cfg, k):
-  return dict(cfg=cfg, opt=dict(integrator="Euler", solver=["Newton", "CG"][k % 2], cone=["pyramidal", "elliptic"][k // 2 % 2], jacobian=["dense", "sparse"][k % 2]), flags=[], toggle="sensor", dt=0.002,
-              seed=1000 + k, sigma=0.05, settle=5, prefill=True, inverse=True, pedestal=True)
+def _base_case(cfg, k, integrator="Euler", joint_menu=None):
+  if joint_menu:
+    cfg = dict(cfg, joint_menu=list(joint_menu))
+  return dict(cfg=cfg, opt=dict(integrator=integrator, solver=["Newton", "CG"][k % 2], cone=["pyramidal", "elliptic"][k // 2 % 2], jacobian=["dense", "sparse"][k % 2]), flags=[], toggle="sensor",
+              dt=0.002, seed=1000 + k, sigma=0.05, settle=5, prefill=True, inverse=True, pedestal=True)
+
+
+# base-model slots: the implicit integrators get models with hinge/slide joints only (see ASSUMPTIONS: their next state is judged on such models)
+_SLOTS = [("Euler", None), ("implicitfast", ["hinge", "slide"]), ("Euler", None), ("implicit", ["hinge", "slide"]), ("Euler", None)]
 
 
 _BASES = {}
@@ -136,56 +148,48 @@ def _runtime_flags(mjm0, flags):
 
 
 def _bases(tier, seed):
-  """3 (quick) / 5 (thorough) base cases, searched deterministically from the run seed, on which (a) every one of the 19 flags changes MuJoCo's own forward/inverse/step output,
-  (b) both engines report the same contacts and both solvers converge under the default flags, and (c) every flag except ISLAND (not read by MJWarp without sleep) changes MJWarp's output."""
+  """3 (quick) / 5 (thorough) base cases (slots of _SLOTS), each searched deterministically from the run seed (at most 80 candidates per slot), on which (a) every one of the 19
+  flags (EULERDAMP only with the Euler integrator) changes MuJoCo's own forward/inverse/step output (the reference decides, so that a flag MJWarp ignores cannot steer the
+  selection) and (b) both engines report the same contacts and both solvers converge under the default flags (candidates that only satisfy (a) are the fallback)."""
   key = (tier, int(seed))
   if key in _BASES:
     return _BASES[key]
-  want = 3 if tier == "quick" else 5
-  found, fallback = [], []
-  rng = np.random.default_rng([int(seed), 0xC32])
-  for k in range(400):
-    case = _base_case(_base_cfg(int(rng.integers(0, 2**31 - 1))), k)
-    try:
-      spec = _spec(case, None)
-      mjm0 = H.compile_spec(_with_flags(spec, []))
-      state = _state(case, mjm0)
-      ref0 = _mj_run(mjm0, state, case)
-      if ref0 is None or min(ref0["ne"], ref0["nf"], ref0["nl"]) == 0 or ref0["ncon"] < 3 or ref0["niter"] >= _ITER:
-        continue
-      eff = 0
-      for f in FLAGS:
-        if f == "energy":  # with energy sensors MuJoCo computes Data.energy whatever the flag says
-          eff += 1
+  out = []
+  for slot, (integ, jmenu) in enumerate(_SLOTS[: 3 if tier == "quick" else 5]):
+    rng = np.random.default_rng([int(seed), 0xC32, slot])
+    fallback = None
+    for k in range(80):
+      case = _base_case(_base_cfg(int(rng.integers(0, 2**31 - 1))), k, integ, jmenu)
+      try:
+        spec = _spec(case, None)
+        mjm0 = H.compile_spec(_with_flags(spec, []))
+        state = _state(case, mjm0)
+        ref0 = _mj_run(mjm0, state, case)
+        if ref0 is None or min(ref0["ne"], ref0["nf"], ref0["nl"]) == 0 or ref0["ncon"] < 3 or ref0["niter"] >= _ITER:
           continue
-        r = _mj_run(_runtime_flags(mjm0, [f]), state, case)
-        eff += int(r is not None and _mj_differs(ref0, r))
-      if eff < len(FLAGS):
-        if eff >= len(FLAGS) - 2 and len(fallback) < want:
-          fallback.append(case)
-        continue
-      ck = _key(spec, case)
-      _, W0 = _cached_run(ck, set(), spec, state, case)
-      if W0 is None or not _same_contacts(W0, ref0) or W0["solver_niter"] >= _ITER:
-        continue
-      g0 = _groups(mjm0, W0)
-      ok = True
-      for f in FLAGS:
-        if f == "island":
+        ok = True
+        for f in FLAGS:
+          if f == "energy" or (f == "eulerdamp" and integ != "Euler"):  # with energy sensors MuJoCo computes Data.energy whatever the flag says
+            continue
+          r = _mj_run(_runtime_flags(mjm0, [f]), state, case)
+          if r is None or not _mj_differs(ref0, r):
+            ok = False
+            break
+        if not ok:
           continue
-        mjmF, WF = _cached_run(ck, {f}, spec, state, case)
-        if WF is None or _groups(mjmF, WF) == g0:
-          ok = False
-          break
-      if not ok:
+        _, W0 = _cached_run(_key(spec, case), set(), spec, state, case)
+      except Reject:
         continue
-    except Reject:
-      continue
-    found.append(case)
-    if len(found) >= want:
-      break
-  _BASES[key] = (found + fallback)[:want]
-  return _BASES[key]
+      if W0 is not None and _same_contacts(W0, ref0) and W0["solver_niter"] < _ITER:
+        out.append(case)
+        break
+      if fallback is None:
+        fallback = case
+    else:
+      if fallback is not None:
+        out.append(fallback)
+  _BASES[key] = out
+  return out
 
 
 def enumerate_cases(tier, seed):
@@ -242,6 +246,29 @@ def _spec(case, rec):
       g["contype"], g["conaffinity"] = 2, 2
     elif g["type"] == "box":
       g["contype"], g["conaffinity"] = 3, 3
+  # connect/weld between two bodies that cannot move relative to each other (same weld root, e.g. a body and its jointless child): MuJoCo drops the all-zero-Jacobian rows,
+  # MJWarp keeps them (family of the recorded C05 finding rows:no-dof-equality)
+  bn = {b["name"]: b for b in bodies}
+
+  def weld_root(name):
+    while name != "world" and not bn[name]["joints"] and not bn[name].get("mocap"):
+      par = bn[name]["parent"]
+      name = "world" if par < 0 else bodies[par]["name"]
+    return name
+
+  site_body = {s_["name"]: b["name"] for b in bodies for s_ in b["sites"]}
+  eqs = []
+  for e in spec["equalities"]:
+    if e["kind"] in ("connect", "weld"):
+      b1 = e.get("body1") or site_body.get(e.get("site1"), "world")
+      b2 = e.get("body2") or site_body.get(e.get("site2"), "world")
+      r1, r2 = weld_root(b1), weld_root(b2)
+      if r1 == r2 or ({r1, r2} <= static):
+        if rec is not None:
+          rec.excluded["rows:no-dof-equality"] += 1
+        continue
+    eqs.append(e)
+  spec["equalities"] = eqs
   pairs = []
   for p in spec["pairs"]:
     if gbody[p["geom1"]] in static and gbody[p["geom2"]] in static:
@@ -459,9 +486,12 @@ def _mj_run(mjm, state, case, qacc_inv=None):
       out["inv_scale"] = max(1.0, float(np.max(np.abs(mjd.qfrc_inverse), initial=0.0)), float(np.max(np.abs(mjd.qfrc_constraint), initial=0.0)), float(np.max(np.abs(mjd.qfrc_bias), initial=0.0)))
       if out["efc"]["nefc"]:
         # the inverse constraint force of a row is -D*(J.qacc - aref): with stiff rows the two terms cancel, and float32 round-off acts on the uncancelled magnitude
+        # (aref = -B*vel - K*I*pos itself cancels, and the two engines' K, B agree to ~1e-4 only: measured qfrc_inverse differences reach 1.2e-4 of that magnitude)
         e = out["efc"]
-        stiff = float(np.max(e["D"] * (np.abs(e["J"] @ np.array(mjd.qacc)) + np.abs(e["aref"]))))
-        out["inv_scale"] = max(out["inv_scale"], 0.1 * stiff) if np.isfinite(stiff) else float("inf")
+        kb = e["KBIP"]
+        terms = np.abs(e["J"] @ np.array(mjd.qacc)) + kb[:, 1] * np.abs(e["vel"]) + kb[:, 0] * kb[:, 2] * np.abs(e["pos"] - e["margin"])
+        stiff = float(np.max(e["D"] * terms))
+        out["inv_scale"] = max(out["inv_scale"], stiff) if np.isfinite(stiff) else float("inf")
     mjd.warning.number[:] = 0
     mujoco.mj_step(mjm, mjd)
   except mujoco.FatalError:
@@ -474,6 +504,9 @@ def _mj_run(mjm, state, case, qacc_inv=None):
     if not np.all(np.isfinite(out[k])):
       return None
   if not (np.all(np.isfinite(out["next"]["qpos"])) and np.all(np.isfinite(out["next"]["qvel"]))):
+    return None
+  # an unstable reference step (mj_step only warns about it at the beginning of the *next* step; the values may not even fit in float32)
+  if max(float(np.max(np.abs(out["next"]["qvel"]), initial=0.0)), float(np.max(np.abs(out["next"]["qpos"]), initial=0.0)), float(np.max(np.abs(out["qacc"]), initial=0.0))) > 1e6:
     return None
   return out
 
@@ -693,6 +726,7 @@ def _differential(rec, mjm, S, case, W, Mj, state):
   same, pairs = _same_contacts(W, Mj, True)
   ew, em = W["efc"], Mj["efc"]
   comparable = same
+  row_slack, force_tight = 0.0, True
   if same:
     rec.ev()
     if ew["nefc"] != em["nefc"]:
@@ -733,7 +767,7 @@ def _differential(rec, mjm, S, case, W, Mj, state):
       dvel = np.abs(ew["vel"][iw].astype(np.float64) - em["vel"][im])
       dpos = np.abs(pw[iw] - pm[im])
       terms = B * np.abs(em["vel"][im]) + K * I * np.abs(pm[im])
-      allow = 2e-3 * terms + 2.0 * (B * dvel + K * I * dpos) + 1e-5 * max(1.0, float(np.max(np.abs(am))))
+      allow = 8e-3 * terms + 8.0 * (B * dvel + K * I * dpos) + 1e-5 * max(1.0, float(np.max(np.abs(am))))
       ratio = np.abs(aw - am) / allow
       rec.err("efc.aref/tol", float(np.max(ratio)))
       if not np.max(ratio) <= 1.0:
@@ -741,6 +775,12 @@ def _differential(rec, mjm, S, case, W, Mj, state):
         rec.violation(f"efc.aref differs: row key {rw[j][0]} got {aw[j]} want {am[j]} (allowed {allow[j]:.3g}) flags={sorted(S)}", sig="rows:aref", **ctx)
       if float(np.max(em["D"])) > 1e10:
         comparable = False
+      # what the rows' own (separately judged) differences do to a force computed from them: |J|^T (D*|d aref| + |d D|*|J.qacc - aref|), used as slack by the inverse check
+      jar = np.abs(em["J"][im] @ W["qacc"].astype(np.float64) - am)
+      df = Dm * np.abs(aw - am) + np.abs(Dw - Dm) * jar + Dm * (np.abs(ew["J"][iw].astype(np.float64) - em["J"][im]) @ np.abs(W["qacc"].astype(np.float64)))
+      row_slack = float(np.max(np.abs(em["J"][im]).T @ df)) if np.all(np.isfinite(df)) else float("inf")
+      fw, fm = ew["force"][iw].astype(np.float64), em["force"][im]
+      force_tight = bool(np.max(np.abs(fw - fm)) <= 2e-4 * max(1.0, float(np.max(np.abs(fm)))))
   else:
     rec.boundary_skipped += 1
     rec.cls("skipped:contact-sets-differ")
@@ -784,7 +824,7 @@ def _differential(rec, mjm, S, case, W, Mj, state):
         if stage == int(mujoco.mjtStage.mjSTAGE_ACC):
           if t in (int(_S.mjSENS_ACTUATORFRC), int(_S.mjSENS_JOINTACTFRC)):
             _close(rec, f"sensor:{name}", got, ref, 5e-4, ascale, f"sensor:{name}", **ctx)
-          elif solved and qacc_tight:
+          elif solved and qacc_tight and force_tight:
             _close(rec, f"sensor:{name}", got, ref, 2e-3, cacc, f"sensor:{name}", **ctx)
           else:
             rec.boundary_skipped += 1
@@ -803,12 +843,17 @@ def _differential(rec, mjm, S, case, W, Mj, state):
   if case["inverse"]:
     if W["inv_rejected"]:
       rec.cls("inverse:rejected-by-mjwarp")
+    elif "invdiscrete" in S and case["opt"]["integrator"] == "Euler" and "damper" in S and "eulerdamp" not in S and bool((mjm.dof_damping != 0).any()):
+      # the reference contradicts itself here: with DAMPER disabled mj_Euler applies no implicit damping, but mj_discreteAcc (INVDISCRETE) still converts qacc with
+      # M + dt*diag(damping) (hinge, damping 5, dt .01, qfrc_applied .7: mj_inverse of mj_step's own discrete acceleration returns 1.90).  MJWarp follows the step.  Not judged.
+      rec.excluded["mujoco:discrete-inverse-ignores-damper-flag"] += 1
     elif "invdiscrete" in S and case["opt"]["integrator"] != "Euler" and _quat_slots(mjm):
       # the discrete-time conversion uses the integrator's matrix M - dt*qDeriv: see the implicit step below (C08's business for free/ball joints)
       rec.excluded["implicit-integrator:free-or-ball-joints:discrete-inverse"] += 1
     elif W["inv"] is not None and Mj["inv"] is not None and comparable and condM <= 1e6:
       rec.ev()
-      _close(rec, "qfrc_inverse", W["inv"], Mj["inv"], 2e-3 if em["nefc"] else 5e-4, Mj["inv_scale"], "inverse:qfrc_inverse" + (":discrete" if "invdiscrete" in S else ""), **ctx)
+      tol_i = 2e-3 if em["nefc"] else 5e-4
+      _close(rec, "qfrc_inverse", W["inv"], Mj["inv"], tol_i, Mj["inv_scale"] + 4.0 * row_slack / tol_i, "inverse:qfrc_inverse" + (":discrete" if "invdiscrete" in S else ""), **ctx)
       rec.cls(f"inverse:judged:discrete={'invdiscrete' in S}")
   # ---- G: next state
   nw, nm = W["next"], Mj["next"]
@@ -876,6 +921,49 @@ def _step_tol(mjm, S, case, Mj, state):
   return acc2, r_acc, max(1.0, float(np.max(np.abs(v1), initial=0.0)))
 
 
+_ANALYTIC = (int(mujoco.mjtGeom.mjGEOM_PLANE), int(mujoco.mjtGeom.mjGEOM_SPHERE), int(mujoco.mjtGeom.mjGEOM_CAPSULE))
+
+
+def _pair_presence(mjm, a, b):
+  """Geom pairs of analytic types (plane/sphere/capsule) that penetrate by more than 2 mm in contact list a and do not occur at all in contact list b."""
+  present = {(int(g[0]), int(g[1])) for g in b["geom"]}
+  out = set()
+  for g, dist in zip(a["geom"], a["dist"]):
+    k = (int(g[0]), int(g[1]))
+    if dist < -2e-3 and k not in present and int(mjm.geom_type[k[0]]) in _ANALYTIC and int(mjm.geom_type[k[1]]) in _ANALYTIC:
+      out.add(k)
+  return out
+
+
+def _ped_count(mjm, con):
+  """Number of contacts of the flat pedestal pair (static box 'gped' under the box / cube mesh 'gpb'), or None without a pedestal."""
+  g1, g2 = mujoco.mj_name2id(mjm, mujoco.mjtObj.mjOBJ_GEOM, "gped"), mujoco.mj_name2id(mjm, mujoco.mjtObj.mjOBJ_GEOM, "gpb")
+  if g1 < 0 or g2 < 0:
+    return None
+  return sum(1 for g in con["geom"] if {int(g[0]), int(g[1])} == {g1, g2})
+
+
+def _contact_effect(rec, mjm, S, W, Mj, W0, Mj0):
+  """The flags that act on collision detection (CONSTRAINT, CONTACT, FILTERPARENT, MULTICCD) must act on the contact list as in MuJoCo.  Geometric differences between the two
+  collision pipelines are C04's business and do not depend on the flags: judged only for what already agrees under the default flags on the same model and state, namely
+  (i) presence of clearly penetrating (> 2 mm) pairs of analytic geom types, (ii) the number of contacts of the flat pedestal pair (4 with MULTICCD, 1 without for mesh-box)."""
+  if not (_pair_presence(mjm, W0["con"], Mj0["con"]) or _pair_presence(mjm, Mj0["con"], W0["con"])):
+    rec.ev()
+    extra, missing = _pair_presence(mjm, W["con"], Mj["con"]), _pair_presence(mjm, Mj["con"], W["con"])
+    if extra or missing:
+      rec.violation(
+        f"flags {sorted(S)}: geom pairs penetrating > 2 mm reported by MJWarp only {sorted(extra)} / by MuJoCo only {sorted(missing)} (the default-flags contact lists of the same state agree)",
+        sig="contacts:pairs", flags=sorted(S),
+      )
+  n0w, n0m = _ped_count(mjm, W0["con"]), _ped_count(mjm, Mj0["con"])
+  if n0w is not None and n0w == n0m:
+    rec.ev()
+    nw, nm = _ped_count(mjm, W["con"]), _ped_count(mjm, Mj["con"])
+    rec.cls(f"pedestal-contacts:{nm}")
+    if nw != nm:
+      rec.violation(f"flags {sorted(S)}: the flat box/mesh-on-box pair has {nw} contacts, MuJoCo {nm} (default flags: {n0w} in both)", sig="contacts:count:flat-pair", flags=sorted(S))
+
+
 def _escale(mjm, Mj, ref):
   return max(1.0, float(np.sum(np.abs(mjm.body_mass[:, None] * Mj["xipos"] * mjm.opt.gravity[None, :]))), float(np.max(np.abs(ref), initial=0.0)))
 
@@ -935,6 +1023,10 @@ def check(case, rec):
   else:
     comparable = _differential(rec, mjmS, S, case, W, Mj, state)
     rec.cls(f"comparable:{bool(comparable)}", f"nefc>0:{Mj['nefc'] > 0}", f"ncon>0:{Mj['ncon'] > 0}")
+    if S & {"constraint", "contact", "filterparent", "multiccd"}:
+      W0, Mj0 = default_runs()
+      if W0 is not None and Mj0 is not None:
+        _contact_effect(rec, mjmS, S, W, Mj, W0, Mj0)
 
   # ---- oracle 2: locality of the toggled flag
   T = set(S) ^ {F}
